@@ -30,6 +30,9 @@ type Op struct {
 	Ev   string   `json:"ev,omitempty"` // CONFIGURE | START | STOP | RESET
 	Oc   []string `json:"oc,omitempty"` // ack | errsrc | errerr | sendfail | silent | dies, by task position
 	I    int      `json:"i,omitempty"`  // kill: task position
+	// kill: how the task dies: "" TASK_FAILED status update; "executor": a Mesos FAILURE event for its
+	// executor (HandleExecutorFailed, which filters the roster).  The same step for the model.
+	Via string `json:"via,omitempty"`
 }
 
 type Input struct {
@@ -43,6 +46,12 @@ type Input struct {
 	// no call role) forces the interleaving of the two TASK_RUNNING updates described in gate.go
 	Nest int  `json:"nest,omitempty"`
 	Gate bool `json:"gate,omitempty"`
+	// Bystander > 0: once the environment is created, a second environment of that many non-critical
+	// tasks is created and destroyed again before the first request.  Invisible to the model: another
+	// environment's life must not change anything here.  (Its teardown filters the task manager's
+	// roster for tasks that are NOT a prefix of it - KillTasks, doKillTasks - which is where a filter
+	// that writes through the roster's slice loses the tasks of this environment.)
+	Bystander int `json:"bystander,omitempty"`
 }
 
 type StepObs struct {
@@ -248,6 +257,11 @@ func runCaseOnce(w *c0203.World, idx int, try int, in Input) (obsOut []StepObs, 
 		env.Finish(false)
 		return obs, false, accident
 	}
+	if in.Bystander > 0 {
+		if d := runBystander(w, name+"b", in.Bystander); d != "" {
+			obs[0].Diag = strings.TrimSpace(obs[0].Diag + " bystander: " + d)
+		}
+	}
 	for _, op := range in.Ops {
 		var so StepObs
 		env.Mark()
@@ -282,7 +296,12 @@ func runCaseOnce(w *c0203.World, idx int, try int, in Input) (obsOut []StepObs, 
 			prev := env.State()
 			crit := op.I < len(in.Tasks) && in.Tasks[op.I].Crit
 			if op.I < len(env.TaskIds) && env.TaskIds[op.I] != "" {
-				w.Sim.FailTask(env.TaskIds[op.I], 3 /* TASK_FAILED */)
+				tid := env.TaskIds[op.I]
+				if ex := w.ExecutorOf(tid); op.Via == "executor" && ex != "" {
+					w.Sim.FailExecutor(w.AgentOf(tid), ex)
+				} else {
+					w.Sim.FailTask(tid, 3 /* TASK_FAILED */)
+				}
 			}
 			want := append([][2]int(nil), view...)
 			if op.I < len(want) {
@@ -309,6 +328,35 @@ func runCaseOnce(w *c0203.World, idx int, try int, in Input) (obsOut []StepObs, 
 	last := obs[len(obs)-1]
 	env.Finish(!last.Hang)
 	return obs, false, false
+}
+
+// runBystander creates a flat environment of n non-critical tasks next to the case's environment and
+// destroys it again; returns a diagnosis when that did not go as it should (not compared).
+func runBystander(w *c0203.World, name string, n int) string {
+	yamlOf, pathOf := w.YAMLOf, w.PathOf
+	w.YAMLOf, w.PathOf = nil, nil
+	defer func() { w.YAMLOf, w.PathOf = yamlOf, pathOf }()
+	ts := make([]c0203.Task, n)
+	launch, cfg := make([]string, n), make([]string, n)
+	for i := range ts {
+		ts[i] = c0203.Task{Crit: false, Mode: modes[i%3], Host: 1 + i%3}
+		launch[i], cfg[i] = "run", "ack"
+	}
+	benv, cr := w.Create(name, ts, launch, cfg, nil, deployTimeoutOK, 13500*time.Millisecond)
+	diag := ""
+	if cr.Err != nil || cr.Hang {
+		diag = fmt.Sprintf("not created (hang=%v err=%v)", cr.Hang, cr.Err)
+	}
+	benv.Finish(!cr.Hang) // forced destroy: KillTasks of its tasks
+	waitFor(3*time.Second, func() bool {
+		for _, t := range w.Sim.Taskman.VerifRoster() {
+			if t.EnvId == benv.Id.String() {
+				return false
+			}
+		}
+		return true
+	})
+	return diag
 }
 
 func sameView(a, b [][2]int) bool {
@@ -613,6 +661,24 @@ func genCase(r *gen.Rand, thorough bool, allowSlow bool) (Input, string) {
 			}
 		}
 	}
+	// another environment's life: 1 walk in 6 with two tasks or more gets a bystander environment of at
+	// least as many tasks; 1 idle death of a non-critical task in 3 is the failure of its executor
+	if n >= 2 && !deployFails && r.Chance(1, 6) {
+		in.Bystander = n + r.Intn(2)
+	}
+	for k := range in.Ops {
+		if in.Ops[k].Kind == "kill" && in.Ops[k].I < n && !in.Tasks[in.Ops[k].I].Crit && r.Chance(1, 3) {
+			alone := true // the tasks of one host share their executor: its failure takes them all
+			for j, t := range in.Tasks {
+				if j != in.Ops[k].I && t.Host == in.Tasks[in.Ops[k].I].Host {
+					alone = false
+				}
+			}
+			if alone {
+				in.Ops[k].Via = "executor"
+			}
+		}
+	}
 	// shape: 1 case in 5 with two tasks or more puts its first tasks under an aggregator role; when
 	// exactly the first two are and nothing else can disturb the root (no call role, every task
 	// launches) the interleaving of gate.go is forced
@@ -735,6 +801,18 @@ func corpus() []job {
 	add("corpus-gate-noncritical", Input{Nest: 2, Gate: true, Tasks: []c0203.Task{t(false, "basic", 3), t(true, "direct", 1)}, Launch: []string{"run", "run"}, Cfg: []string{"ack", "ack"}})
 	add("corpus-nested-walk", Input{Nest: 2, NCalls: 1, Tasks: []c0203.Task{t(true, "direct", 1), t(false, "fairmq", 2), t(true, "basic", 3)}, Launch: []string{"run", "run", "run"}, Cfg: []string{"ack", "errsrc", "ack"},
 		Ops: []Op{{Kind: "cmd", Ev: "START", Oc: []string{"ack", "sendfail", "ack"}}, {Kind: "kill", I: 1}, {Kind: "cmd", Ev: "STOP", Oc: []string{"ack", "ack", "errerr"}}}})
+	// the roster stays intact while other environments come and go and executors fail: a bystander
+	// environment with more tasks than this one is created after it and torn down before a command to
+	// several tasks in which a critical one fails in each of the ways (the classification finds the
+	// critical trait through the roster); the same with the executor of a non-critical task failing
+	add("corpus-bystander-critical-errerr", Input{Bystander: 4, Tasks: []c0203.Task{t(true, "direct", 1), t(true, "fairmq", 2), t(false, "basic", 3)}, Launch: []string{"run", "run", "run"}, Cfg: []string{"ack", "ack", "ack"},
+		Ops: []Op{{Kind: "cmd", Ev: "START", Oc: []string{"errerr", "ack", "ack"}}}})
+	add("corpus-bystander-critical-sendfail", Input{Bystander: 3, Tasks: []c0203.Task{t(false, "basic", 2), t(true, "direct", 1)}, Launch: []string{"run", "run"}, Cfg: []string{"ack", "ack"},
+		Ops: []Op{{Kind: "cmd", Ev: "START", Oc: []string{"ack", "ack"}}, {Kind: "cmd", Ev: "STOP", Oc: []string{"ack", "sendfail"}}}})
+	add("corpus-bystander-reset-configure", Input{Bystander: 5, Nest: 2, Tasks: []c0203.Task{t(true, "direct", 1), t(true, "basic", 3), t(true, "fairmq", 2), t(false, "fairmq", 1)}, Launch: []string{"run", "run", "run", "run"}, Cfg: []string{"ack", "ack", "ack", "errsrc"},
+		Ops: []Op{{Kind: "cmd", Ev: "RESET", Oc: []string{"ack", "ack", "ack", "ack"}}, {Kind: "cmd", Ev: "CONFIGURE", Oc: []string{"ack", "ack", "errsrc", "ack"}}}})
+	add("corpus-executor-failure-then-critical", Input{Tasks: []c0203.Task{t(true, "direct", 1), t(true, "fairmq", 2), t(false, "basic", 3), t(true, "basic", 1)}, Launch: []string{"run", "run", "run", "run"}, Cfg: []string{"ack", "ack", "ack", "ack"},
+		Ops: []Op{{Kind: "kill", I: 2, Via: "executor"}, {Kind: "cmd", Ev: "START", Oc: []string{"errsrc", "errerr", "ack", "sendfail"}}}})
 	add("corpus-nested-deploy-noncritical", Input{Nest: 2, Tasks: []c0203.Task{t(true, "direct", 1), t(false, "basic", 2)}, Launch: []string{"run", "fail"}, Cfg: []string{"ack", "ack"}})
 	return js
 }
@@ -869,6 +947,10 @@ func runWorkers(o gen.Opts, jobs []job, workers int) map[int][]StepObs {
 }
 
 func main() {
+	if len(os.Args) == 3 && os.Args[1] == "-gen" {
+		genFilteredPure(os.Args[2])
+		return
+	}
 	child := flag.String("child", "", "worker mode: file with the jobs")
 	childOut := flag.String("childout", "", "worker mode: result file")
 	wid := flag.Int("wid", 0, "worker id")
